@@ -26,10 +26,14 @@ var c06Roles = []struct {
 	// one short-lived root certificate delivered in both the TCB-Info and the QE-Identity issuer chain
 	// (as Intel's are): it is judged at the TCB-Info time for one response and at the QE-Identity time for the other
 	{"shared.root@tcbinfo", 1, false}, {"shared.root@qeidentity", 2, false},
+	// one short-lived intermediate (root) certificate that is both in the quote's chain and in the PCK CRL's
+	// issuer chain (as with Intel's service): judged at the PCK-chain time in one place and at the PCK-CRL time in the other
+	{"shared.inter@pckcrl", 3, true}, {"shared.inter@pckchain", 0, false},
+	{"shared.qroot@pckcrl", 3, true}, {"shared.qroot@pckchain", 0, false},
 }
 
 func C06(c *core.Ctx) {
-	c.Rule = "worlds in which exactly one artefact (each of the nine certificate roles - PCK chain root / intermediate / leaf, signer and root of the TCB-Info, QE-Identity and PCK-CRL issuer chains, realised as re-issued certificates with the same key and name - the two JSON documents, the two CRLs; and one short-lived root delivered in both the TCB-Info and the QE-Identity chain) expires at E while everything else lives for years; the entry of the time set that judges it at E-1s, E, E+1s, E+1d, E+400d with the four other entries pairwise distinct and either all before E or all after E; not-yet-valid path certificates; sub-second offsets around E (E-1ms, E+1ms, E+500ms, E+999ms; oracle only); zero time entries (x509 wall-clock fallback) and a nil time set. Ground truth: accepted iff every artefact is unexpired at its own entry. non-trivial = every case; distinct = distinct (role, time set)"
+	c.Rule = "worlds in which exactly one artefact (each of the nine certificate roles - PCK chain root / intermediate / leaf, signer and root of the TCB-Info, QE-Identity and PCK-CRL issuer chains, realised as re-issued certificates with the same key and name - the two JSON documents, the two CRLs; one short-lived root delivered in both the TCB-Info and the QE-Identity chain; and one short-lived intermediate / root that is both in the quote's chain and in the PCK-CRL issuer chain) expires at E while everything else lives for years; the entry of the time set that judges it at E-1s, E, E+1s, E+1d, E+400d with the four other entries pairwise distinct and either all before E or all after E; not-yet-valid path certificates; sub-second offsets around E (E-1ms, E+1ms, E+500ms, E+999ms; oracle only); zero time entries (x509 wall-clock fallback) and a nil time set. Ground truth: accepted iff every artefact is unexpired at its own entry. non-trivial = every case; distinct = distinct (role, time set)"
 	r := c.Rng
 	day := 24 * time.Hour
 	far := baseTime.Add(5 * 365 * day)
@@ -61,9 +65,9 @@ func C06(c *core.Ctx) {
 			// the chain carried by the quote
 			qRoot, qInter, qLeaf := pki.Root, pki.Inter, pki.Leaf
 			switch role.name {
-			case "pck.root":
+			case "pck.root", "shared.qroot@pckcrl", "shared.qroot@pckchain":
 				qRoot = shortRoot()
-			case "pck.inter":
+			case "pck.inter", "shared.inter@pckcrl", "shared.inter@pckchain":
 				qInter = reissue(pki.Inter, pki.Root, true, "Intel SGX PCK Platform CA", E, nil, rootDP)
 			case "pck.leaf":
 				qLeaf = reissue(pki.Leaf, pki.Inter, false, "Intel SGX PCK Certificate", E, ext.DER(), pki.Leaf.Cert.CRLDistributionPoints)
@@ -102,6 +106,10 @@ func C06(c *core.Ctx) {
 			case "shared.root@tcbinfo", "shared.root@qeidentity":
 				sr := shortRoot()
 				tRoot, qRootC = sr, sr
+			case "shared.inter@pckcrl", "shared.inter@pckchain":
+				cSigner = qInter // the very certificate of the quote's chain
+			case "shared.qroot@pckcrl", "shared.qroot@pckchain":
+				cRoot = qRoot
 			}
 			w.TcbInfoHeader = map[string][]string{world.TcbInfoIssuerChainHeader: {pki.IssuerChainHeader(tSigner, tRoot)}}
 			w.QeIdentityHeader = map[string][]string{world.QeIdentityIssuerChainHeader: {pki.IssuerChainHeader(qSigner, qRootC)}}
@@ -157,9 +165,20 @@ func C06(c *core.Ctx) {
 					if strings.HasPrefix(role.name, "shared.root") && others == "after" {
 						want = 0 // the other response carries the same root and is judged after its end
 					}
+					// a certificate that sits both in the quote's chain and in the PCK CRL's issuer chain is
+					// judged at the PCK-chain time (always) and at the PCK-CRL time (with revocation checking)
+					sharedChain := strings.HasPrefix(role.name, "shared.inter") || strings.HasPrefix(role.name, "shared.qroot")
+					sharedWant := func(crl bool) int { return boolInt(!t[0].After(E) && !(crl && t[3].After(E))) }
+					if sharedChain {
+						want = sharedWant(crl)
+					}
 					try(fmt.Sprintf("own=%s others=%s crl=%v", own.name, others, crl), ts, crl, want)
 					if role.crl {
-						try(fmt.Sprintf("own=%s others=%s revocation off (artefact not consulted)", own.name, others), ts, false, 1)
+						off := 1
+						if sharedChain {
+							off = sharedWant(false)
+						}
+						try(fmt.Sprintf("own=%s others=%s revocation off (artefact not consulted)", own.name, others), ts, false, off)
 					}
 				}
 			}
